@@ -1,8 +1,8 @@
 // In-memory zone data source + a strong definition of
 // cctz_extension::zone_info_source_factory (the documented extension point).
 //
-// Names beginning with "V/" are served from the registry (missing -> not found, the fallback
-// is NOT consulted); every other name goes to the fallback (file) factory.
+// Registered names are served from the registry; unregistered names beginning with "V/" are not
+// found (the fallback is NOT consulted); every other name goes to the fallback (file) factory.
 // Every factory invocation and every Read/Skip is logged for the C14/C20 monitors.
 #ifndef VERIF_ZSRC_H_
 #define VERIF_ZSRC_H_
@@ -150,8 +150,10 @@ inline std::unique_ptr<cctz::ZoneInfoSource> Factory(
   const std::function<void(const std::string&)>& gate = s.gate;  // set before threads start
   if (gate) gate(name);
   std::unique_ptr<cctz::ZoneInfoSource> r;
-  if (ours) {
-    if (bytes) r.reset(new MemSource(name, bytes));
+  if (bytes) {
+    r.reset(new MemSource(name, bytes));  // any registered name, whatever its shape
+  } else if (ours) {
+    // not found; the fallback is not consulted
   } else {
     r = fallback(name);
   }
